@@ -68,9 +68,10 @@ def queries(tier, kfs):
             for looped in (0, 1):
                 for cache in (1, 0):
                     sm = 0 if looped else (1 | 1 << (n - 1))
-                    for bl in bl_sets(n, sm, tier):
-                        for mk in masks(n, tier):
-                            prof.append((n, looped, cache, bl, mk, '3.0' if (bl + (mk or 0)) % 2 else '0.7'))
+                    for bl in bl_sets(n, sm, tier)[:4]:
+                        for mk in masks(n, tier)[:3]:
+                            if (bl + (mk or 0) + cache + n) % 2 == 0 or mk is None:
+                                prof.append((n, looped, cache, bl, mk, '3.0' if (bl + (mk or 0)) % 2 else '0.7'))
     prof = [p + (0,) for p in prof]
     # apply_par path (blocks executed one after the other): must equal the sequential semantics
     prof += [(4, 0, 1, 0b1001, None, '3.0', 2), (4, 0, 1, 0b0100, 0b0010, '3.0', 3), (3, 0, 1, 0, None, '3.0', 2), (4, 1, 1, 0b0001, 0b0100, '3.0', 4)]
@@ -95,7 +96,7 @@ def queries(tier, kfs):
         n, d = table_info(t)
         sm = status_mask(t)
         combos = ([(sm, None, 0), (1 << (n // 2), 1 << (n - 1), 0), (1 << (n - 1), 1, 2)] if n <= 4 else [(sm, None, 0), (1 << (n // 2), 1 << (n - 1), 2)]) if quick else \
-            [(bl, mk, (bl + (mk or 0)) % 3) for bl in bl_sets(n, sm, tier) for mk in masks(n, tier)[:4]]
+            [(bl, mk, (bl + (mk or 0)) % 3) for bl in bl_sets(n, sm, tier)[:3] for mk in masks(n, tier)[:2]]
         for bl, mk, thr in combos:
             hd = dict(N=n, D=d, GRID=1, BLMASK=bl, USE_MASK=0 if mk is None else 1, TABLE='"%s.h"' % t, THREADS=thr)
             if mk is not None:
